@@ -548,6 +548,15 @@ class Interp:
             except Exception as ex:  # e.g. an unhashable model value looked up in a dict
                 raise PyRaise(type(ex).__name__, None)
             return res if isinstance(op, ast.In) else not res
+        if isinstance(a, (set, frozenset)) and isinstance(b, (set, frozenset)):
+            if isinstance(op, ast.LtE):
+                return a <= b
+            if isinstance(op, ast.Lt):
+                return a < b
+            if isinstance(op, ast.GtE):
+                return a >= b
+            if isinstance(op, ast.Gt):
+                return a > b
         if isinstance(a, int) and isinstance(b, int):
             if isinstance(op, ast.Lt):
                 return a < b
